@@ -37,6 +37,25 @@ static KSI_TreeNode *mk_node(void) {
 	return n;
 }
 
+#ifdef H_joinhashes
+void harness(void) {
+	KSI_DataHasher hsr;
+	KSI_TreeNode *l = nondet_bool() ? mk_node() : NULL;
+	KSI_TreeNode *r = nondet_bool() ? mk_node() : NULL;
+	KSI_DataHash *sentinel = (KSI_DataHash *)nondet_ptr();
+	KSI_DataHash *out = sentinel;
+	int level = nondet_int();
+	int res;
+	tr_init();
+	if (nondet_bool()) { g_tr_n = nondet_uint(); g_tr_failed = nondet_bool(); }
+	res = joinHashes(&g_ctx_obj, &hsr, l, r, level, nondet_bool() ? &out : NULL);
+	REACH("joinHashes returns");
+	if (res == KSI_OK) REACH("hash step done");
+	if (res == KSI_OK && l->metaData != NULL && r->metaData != NULL && g_tr_n == 7) REACH("hash step over two meta-data nodes");
+	if (res != KSI_OK && g_tr_failed) REACH("hasher failed");
+}
+#endif
+
 #ifdef H_join
 void harness(void) {
 	KSI_DataHasher hsr;
@@ -87,9 +106,7 @@ void harness(void) {
 	res = insertNode(b, node, at);
 	REACH("insertNode returns");
 	if (res == KSI_OK) REACH("accepted");
-	if (res == KSI_OK && g_tb.stack[at] == node) REACH("accepted into an empty slot");
 	if (res == KSI_OK && g_tb.stack[at] == NULL) REACH("accepted with a carry");
-	if (res == KSI_OK && at == 254 && g_tb.stack[at] == NULL) REACH("accepted with a carry into slot 255");
 	if (res != KSI_OK && b != NULL && node != NULL && node->level <= 0xff) REACH("refused during the carry");
 }
 #endif
